@@ -234,6 +234,20 @@ func registerMisc(e *Engine) {
 	e.reg("(*sync.WaitGroup).Wait", func(ex *Exec, fn *ssa.Function, args []Value) (Value, *PanicV) {
 		p := args[0].(Ptr)
 		k := "wg:" + ex.ptrKey(p)
+		// run the queued goroutines (sequentialised, in a nondeterministically chosen order)
+		for {
+			q := ex.goQueue()
+			if len(q) == 0 {
+				break
+			}
+			k := ex.chooseN(len(q))
+			t := q[k]
+			nq := append(append([]goTask{}, q[:k]...), q[k+1:]...)
+			ex.st["goq"] = nq
+			if _, pan := ex.callAny(t.fn, t.args, nil); pan != nil {
+				return nil, pan
+			}
+		}
 		n, _ := ex.st[k].(int)
 		if n != 0 {
 			ex.blocked("WaitGroup.Wait with non-zero counter")
